@@ -12,9 +12,12 @@
   (`C11_matches`, via a lockstep bisimulation of the match loop on two ticket queues that hand out
   the same orders in the same order, `loop_sim`, and the irrelevance of the statistics,
   `loop_stats_irrel`): on such a level the restored copy answers every sequence of matches with
-  identical transactions, ids, remaining quantities and filled lists. NOT lifted: continuations
-  that also add, cancel or amend (each preserves the relation by `C04_partial`, but the combined
-  induction over all operation kinds is not written).
+  identical transactions, ids, remaining quantities and filled lists. Lifted further to EVERY
+  continuation (`C11_continuations`): adds, cancels, quantity amends, price moves, replaces and
+  matches in any order and number, under the one proviso that the continuation does not re-add an
+  id whose stale ticket the original still queues (that is C04/F2, a known finding). The relation
+  used there (`RelQ`: equal maps, ticket queues equal once the tickets of dead ids are deleted)
+  tolerates duplicate tickets, which a same-price amend creates on both sides alike.
 -/
 import PLV.Lemmas.Restore
 import PLV.Props.C19
@@ -417,6 +420,427 @@ theorem C11_counterexample :
 
 /-! non-vacuity: a level whose hand-out order is its listing (timestamps in arrival order) -/
 example : live ((Level.new 100).addOrder B |>.addOrder A) = ((Level.new 100).addOrder B |>.addOrder A).listing := by
+  decide
+
+
+/-! ### lifting to every continuation: adds, cancels, amends, price moves, replaces and matches
+
+  The relation used for matches only (`SimQ`, no duplicate tickets) does not survive a same-price
+  amend, which appends a second ticket for the amended id. The relation below does: the two ticket
+  queues are equal as lists once the tickets of a fixed set `D` of ids are deleted, where `D` holds
+  ids that are in neither map and that the continuation never adds — their tickets are skipped by
+  every `pop` for good. Duplicate tickets outside `D` are allowed (they are the same on both sides). -/
+
+/-- ids in `D` are dead for good: absent from the maps; the ticket queues agree up to their tickets -/
+structure RelQ (D : Id → Bool) (m1 : OMap) (ts1 : List Id) (m2 : OMap) (ts2 : List Id) : Prop where
+  find : ∀ id, m1.find id = m2.find id
+  dead : ∀ id, D id = true → m1.find id = none
+  tick : ts1.filter (fun id => !D id) = ts2.filter (fun id => !D id)
+
+theorem popLive_skip (m : OMap) (pre ts : List Id) (h : ∀ x ∈ pre, m.find x = none) :
+    popLive m (pre ++ ts) = popLive m ts := by
+  induction pre with
+  | nil => rfl
+  | cons x rest ih =>
+    have hx := h x (by simp)
+    simp only [List.cons_append, popLive, hx]
+    exact ih (fun y hy => h y (by simp [hy]))
+
+theorem popLive_all_dead (m : OMap) (ts : List Id) (h : ∀ x ∈ ts, m.find x = none) : popLive m ts = none := by
+  have := popLive_skip m ts [] h
+  simpa [popLive] using this
+
+theorem find_erase_none {m : OMap} {id : Id} (h : m.find id = none) (t : Id) : (m.erase t).find id = none := by
+  by_cases e : id = t
+  · subst e; exact find_erase_self m id
+  · rw [find_erase_ne e]; exact h
+
+theorem filter_split (p : Id → Bool) (t : Id) (rest : List Id) : ∀ (ts : List Id), ts.filter p = t :: rest →
+    ∃ pre post, ts = pre ++ t :: post ∧ (∀ x ∈ pre, p x = false) ∧ post.filter p = rest := by
+  intro ts
+  induction ts with
+  | nil => intro h; simp at h
+  | cons x xs ih =>
+    intro h
+    by_cases hx : p x = true
+    · rw [List.filter_cons_of_pos hx] at h
+      simp only [List.cons.injEq] at h
+      obtain ⟨rfl, h2⟩ := h
+      exact ⟨[], xs, rfl, by simp, h2⟩
+    · have hx' : p x = false := by simpa using hx
+      rw [List.filter_cons_of_neg (by simp [hx'])] at h
+      obtain ⟨pre, post, e, hp, hf⟩ := ih h
+      refine ⟨x :: pre, post, by simp [e], ?_, hf⟩
+      intro y hy
+      simp only [List.mem_cons] at hy
+      rcases hy with rfl | hy
+      · exact hx'
+      · exact hp y hy
+
+/-- `pop` on two related queues: both empty-handed, or the same order, and related tickets remain -/
+theorem pop_rel (D : Id → Bool) (m1 m2 : OMap) (hf : ∀ id, m1.find id = m2.find id)
+    (hd : ∀ id, D id = true → m1.find id = none) :
+    ∀ (ts1 ts2 : List Id), ts1.filter (fun id => !D id) = ts2.filter (fun id => !D id) →
+    (popLive m1 ts1 = none ∧ popLive m2 ts2 = none) ∨
+    ∃ o ts1' ts2', popLive m1 ts1 = some (o, m1.erase o.id, ts1') ∧ popLive m2 ts2 = some (o, m2.erase o.id, ts2') ∧
+      ts1'.filter (fun id => !D id) = ts2'.filter (fun id => !D id) ∧ D o.id = false := by
+  intro ts1
+  induction ts1 with
+  | nil =>
+    intro ts2 h
+    left
+    refine ⟨rfl, popLive_all_dead m2 ts2 ?_⟩
+    intro x hx
+    have : x ∉ ts2.filter (fun id => !D id) := by rw [← h]; simp
+    have hDx : D x = true := by
+      cases hv : D x with
+      | true => rfl
+      | false => exact absurd (List.mem_filter.2 ⟨hx, by simp [hv]⟩) this
+    rw [← hf]; exact hd x hDx
+  | cons t r ih =>
+    intro ts2 h
+    cases hD : D t with
+    | true =>
+      have hn := hd t hD
+      have e1 : popLive m1 (t :: r) = popLive m1 r := by simp [popLive, hn]
+      rw [e1]
+      refine ih ts2 ?_
+      rw [← h, List.filter_cons_of_neg (by simp [hD])]
+    | false =>
+      rw [List.filter_cons_of_pos (by simp [hD])] at h
+      obtain ⟨pre, post, e, hp, hfl⟩ := filter_split _ t _ ts2 h.symm
+      have hpre : ∀ x ∈ pre, m2.find x = none := by
+        intro x hx
+        have := hp x hx
+        rw [← hf]; exact hd x (by simpa using this)
+      have e2 : popLive m2 ts2 = popLive m2 (t :: post) := by rw [e]; exact popLive_skip m2 pre _ hpre
+      rw [e2]
+      cases h1 : m1.find t with
+      | none =>
+        have h2 : m2.find t = none := by rw [← hf]; exact h1
+        have a1 : popLive m1 (t :: r) = popLive m1 r := by simp [popLive, h1]
+        have a2 : popLive m2 (t :: post) = popLive m2 post := by simp [popLive, h2]
+        rw [a1, a2]
+        exact ih post hfl.symm
+      | some o =>
+        have h2 : m2.find t = some o := by rw [← hf]; exact h1
+        have hid : o.id = t := (find_some h1).2
+        right
+        refine ⟨o, r, post, ?_, ?_, hfl.symm, by rw [hid]; exact hD⟩
+        · simp [popLive, h1, hid]
+        · simp [popLive, h2, hid]
+
+theorem relq_erase {D m1 ts1 m2 ts2} (h : RelQ D m1 ts1 m2 ts2) (t : Id) {ts1' ts2' : List Id}
+    (ht : ts1'.filter (fun id => !D id) = ts2'.filter (fun id => !D id)) :
+    RelQ D (m1.erase t) ts1' (m2.erase t) ts2' :=
+  ⟨find_erase_agree h.find t, fun id hid => find_erase_none (h.dead id hid) t, ht⟩
+
+theorem relq_push {D m1 ts1 m2 ts2} (h : RelQ D m1 ts1 m2 ts2) (u : Order) (hu : D u.id = false) :
+    RelQ D (m1.insert u) (ts1 ++ [u.id]) (m2.insert u) (ts2 ++ [u.id]) := by
+  refine ⟨find_insert_agree h.find u, ?_, ?_⟩
+  · intro id hid
+    have hne : id ≠ u.id := by intro e; rw [e, hu] at hid; cases hid
+    rw [find_insert_ne hne]; exact h.dead id hid
+  · rw [List.filter_append, List.filter_append, h.tick]
+
+theorem visit_aside (a : Acc) (p : Nat) (t : Id) (o : Order) (r : MatchOut) : (a.visit p t o r).aside = a.aside := by
+  unfold Acc.visit; split <;> rfl
+
+theorem requeue_aside (a : Acc) (hr : Nat) : (a.requeue hr).aside = a.aside := by
+  unfold Acc.requeue; split <;> rfl
+
+theorem leave_aside (a : Acc) (o : Order) (hr : Nat) : (a.leave o hr).aside = a.aside := rfl
+
+/-- **lockstep, with duplicate and dead tickets allowed**: related queues take the match loop through
+    the same visits and stay related; every order set aside has an id outside `D` -/
+theorem loop_rel (D : Id → Bool) (price : Nat) (taker : Id) (rem : Nat) (m1 : OMap) (ts1 : List Id) (a : Acc) :
+    ∀ (m2 : OMap) (ts2 : List Id), RelQ D m1 ts1 m2 ts2 → (∀ u ∈ a.aside, D u.id = false) →
+      (matchLoop price taker rem m1 ts1 a).1 = (matchLoop price taker rem m2 ts2 a).1 ∧
+      (matchLoop price taker rem m1 ts1 a).2.2.2 = (matchLoop price taker rem m2 ts2 a).2.2.2 ∧
+      RelQ D (matchLoop price taker rem m1 ts1 a).2.1 (matchLoop price taker rem m1 ts1 a).2.2.1
+        (matchLoop price taker rem m2 ts2 a).2.1 (matchLoop price taker rem m2 ts2 a).2.2.1 ∧
+      (∀ u ∈ (matchLoop price taker rem m1 ts1 a).2.2.2.aside, D u.id = false) := by
+  fun_induction matchLoop price taker rem m1 ts1 a with
+  | case1 m1 ts1 a =>
+    intro m2 ts2 hs ha
+    rw [matchLoop_zero]
+    exact ⟨rfl, rfl, hs, ha⟩
+  | case2 rem m1 ts1 a hz hp =>
+    intro m2 ts2 hs ha
+    rcases pop_rel D m1 m2 hs.find hs.dead ts1 ts2 hs.tick with ⟨_, h2⟩ | ⟨o, _, _, h1, _⟩
+    · rw [matchLoop_none _ _ _ _ _ _ hz h2]
+      exact ⟨rfl, rfl, ⟨hs.find, hs.dead, rfl⟩, ha⟩
+    · rw [hp] at h1; simp at h1
+  | case3 rem m1 ts1 a hz o m1' ts1' hp r a2 u hu hs' ih =>
+    intro m2 ts2 hs ha
+    rcases pop_rel D m1 m2 hs.find hs.dead ts1 ts2 hs.tick with ⟨h1, _⟩ | ⟨o2, t1x, ts2', h1, h2, hl, hDo⟩
+    · rw [hp] at h1; simp at h1
+    · rw [hp] at h1; simp only [Option.some.injEq, Prod.mk.injEq] at h1
+      obtain ⟨rfl, rfl, rfl⟩ := h1
+      rw [matchLoop_some _ _ _ _ _ _ hz h2]
+      simp only [show (matchAgainst o rem).updated = some u from hu]
+      rw [if_pos (show (matchAgainst o rem).consumed = 0 ∧ (matchAgainst o rem).hiddenRed = 0 from hs')]
+      refine ih (m2.erase o.id) ts2' (relq_erase hs o.id hl) ?_
+      intro x hx
+      simp only [Acc.pushAside, List.mem_append, List.mem_singleton] at hx
+      rcases hx with hx | rfl
+      · rw [visit_aside] at hx; exact ha x hx
+      · rw [(ma_stay o x rem hu).1]; exact hDo
+  | case4 rem m1 ts1 a hz o m1' ts1' hp r a2 u hu hs' ih =>
+    intro m2 ts2 hs ha
+    rcases pop_rel D m1 m2 hs.find hs.dead ts1 ts2 hs.tick with ⟨h1, _⟩ | ⟨o2, t1x, ts2', h1, h2, hl, hDo⟩
+    · rw [hp] at h1; simp at h1
+    · rw [hp] at h1; simp only [Option.some.injEq, Prod.mk.injEq] at h1
+      obtain ⟨rfl, rfl, rfl⟩ := h1
+      rw [matchLoop_some _ _ _ _ _ _ hz h2]
+      simp only [show (matchAgainst o rem).updated = some u from hu]
+      rw [if_neg (show ¬ ((matchAgainst o rem).consumed = 0 ∧ (matchAgainst o rem).hiddenRed = 0) from hs')]
+      have hDu : D u.id = false := by rw [(ma_stay o u rem hu).1]; exact hDo
+      refine ih ((m2.erase o.id).insert u) (ts2' ++ [u.id]) (relq_push (relq_erase hs o.id hl) u hDu) ?_
+      intro x hx
+      rw [requeue_aside, visit_aside] at hx; exact ha x hx
+  | case5 rem m1 ts1 a hz o m1' ts1' hp r a2 hu ih =>
+    intro m2 ts2 hs ha
+    rcases pop_rel D m1 m2 hs.find hs.dead ts1 ts2 hs.tick with ⟨h1, _⟩ | ⟨o2, t1x, ts2', h1, h2, hl, hDo⟩
+    · rw [hp] at h1; simp at h1
+    · rw [hp] at h1; simp only [Option.some.injEq, Prod.mk.injEq] at h1
+      obtain ⟨rfl, rfl, rfl⟩ := h1
+      rw [matchLoop_some _ _ _ _ _ _ hz h2]
+      simp only [show (matchAgainst o rem).updated = none from hu]
+      refine ih (m2.erase o.id) ts2' (relq_erase hs o.id hl) ?_
+      intro x hx
+      rw [leave_aside, visit_aside] at hx; exact ha x hx
+
+theorem requeueAside_rel (D : Id → Bool) (aside : List Order) : ∀ (m1 : OMap) (ts1 : List Id) (m2 : OMap) (ts2 : List Id),
+    RelQ D m1 ts1 m2 ts2 → (∀ u ∈ aside, D u.id = false) →
+    RelQ D (requeueAside m1 ts1 aside).1 (requeueAside m1 ts1 aside).2 (requeueAside m2 ts2 aside).1 (requeueAside m2 ts2 aside).2 := by
+  induction aside with
+  | nil => intro m1 ts1 m2 ts2 h _; simpa [requeueAside] using h
+  | cons o rest ih =>
+    intro m1 ts1 m2 ts2 h ha
+    simp only [requeueAside]
+    exact ih _ _ _ _ (relq_push h o (ha o (by simp))) (fun u hu => ha u (by simp [hu]))
+
+/-- two levels no sequence of operations avoiding `D` can tell apart (statistics aside) -/
+structure LRel (D : Id → Bool) (l1 l2 : Level) : Prop where
+  price : l1.price = l2.price
+  vis : l1.vis = l2.vis
+  hid : l1.hid = l2.hid
+  cnt : l1.cnt = l2.cnt
+  q : RelQ D l1.map l1.tickets l2.map l2.tickets
+
+theorem match_rel {D : Id → Bool} {l1 l2 : Level} (h : LRel D l1 l2) (q : Nat) (taker : Id) (g : Nat) :
+    (l1.matchOrder q taker g).2 = (l2.matchOrder q taker g).2 ∧
+      LRel D (l1.matchOrder q taker g).1 (l2.matchOrder q taker g).1 := by
+  let a1 : Acc := { vis := l1.vis, hid := l1.hid, cnt := l1.cnt, stats := l1.stats, g := g }
+  have ha2 : ({ vis := l2.vis, hid := l2.hid, cnt := l2.cnt, stats := l2.stats, g := g } : Acc) = { a1 with stats := l2.stats } := by
+    simp [a1, h.vis, h.hid, h.cnt]
+  obtain ⟨e1, e2, e3, e4⟩ := loop_rel D l1.price taker q l1.map l1.tickets a1 l2.map l2.tickets h.q (by simp [a1])
+  obtain ⟨s'', hirr⟩ := loop_stats_irrel l1.price taker q l2.map l2.tickets a1 l2.stats
+  have hrq := requeueAside_rel D (matchLoop l1.price taker q l1.map l1.tickets a1).2.2.2.aside _ _ _ _ e3 e4
+  have hR2 : matchLoop l2.price taker q l2.map l2.tickets { vis := l2.vis, hid := l2.hid, cnt := l2.cnt, stats := l2.stats, g := g } =
+      ((matchLoop l1.price taker q l2.map l2.tickets a1).1, (matchLoop l1.price taker q l2.map l2.tickets a1).2.1,
+        (matchLoop l1.price taker q l2.map l2.tickets a1).2.2.1,
+        { (matchLoop l1.price taker q l2.map l2.tickets a1).2.2.2 with stats := s'' }) := by
+    rw [← h.price, ha2]; exact hirr
+  generalize hA : matchLoop l1.price taker q l1.map l1.tickets a1 = R1 at e1 e2 e3 e4 hrq
+  generalize hB : matchLoop l1.price taker q l2.map l2.tickets a1 = R2 at e1 e2 e3 hrq hR2
+  have hm1 : l1.matchOrder q taker g = l1.finishMatch taker R1 := by simp only [Level.matchOrder]; rw [hA]
+  have hm2 : l2.matchOrder q taker g = l2.finishMatch taker (R2.1, R2.2.1, R2.2.2.1, { R2.2.2.2 with stats := s'' }) := by
+    simp only [Level.matchOrder]; rw [hR2]
+  rw [hm1, hm2]
+  obtain ⟨r1, m1', t1', ac1⟩ := R1
+  obtain ⟨r2, m2', t2', ac2⟩ := R2
+  simp only at e1 e2 e3 hrq
+  subst e1; subst e2
+  refine ⟨?_, ?_⟩
+  · simp only [Level.finishMatch]
+  · simp only [Level.finishMatch]
+    exact ⟨h.price, rfl, rfl, rfl, hrq⟩
+
+theorem add_rel {D : Id → Bool} {l1 l2 : Level} (h : LRel D l1 l2) (o : Order) (ho : D o.id = false) :
+    LRel D (l1.addOrder o) (l2.addOrder o) := by
+  refine ⟨h.price, ?_, ?_, ?_, ?_⟩
+  · simp [Level.addOrder, h.vis]
+  · simp [Level.addOrder, h.hid]
+  · simp [Level.addOrder, h.cnt]
+  · simpa [Level.addOrder] using relq_push h.q o ho
+
+theorem remove_rel {D : Id → Bool} {l1 l2 : Level} (h : LRel D l1 l2) (id : Id) :
+    (l1.removeOrder id).2 = (l2.removeOrder id).2 ∧ LRel D (l1.removeOrder id).1 (l2.removeOrder id).1 := by
+  have hf := h.q.find id
+  cases h1 : l1.map.find id with
+  | none =>
+    have h2 : l2.map.find id = none := by rw [← hf]; exact h1
+    simp only [Level.removeOrder, h1, h2]
+    exact ⟨trivial, h⟩
+  | some o =>
+    have h2 : l2.map.find id = some o := by rw [← hf]; exact h1
+    simp only [Level.removeOrder, h1, h2]
+    refine ⟨trivial, ⟨h.price, by simp [h.vis], by simp [h.hid], by simp [h.cnt], ?_⟩⟩
+    exact relq_erase h.q id h.q.tick
+
+theorem amend_rel {D : Id → Bool} {l1 l2 : Level} (h : LRel D l1 l2) (id : Id) (n : Nat) :
+    (l1.amend id n).2 = (l2.amend id n).2 ∧ LRel D (l1.amend id n).1 (l2.amend id n).1 := by
+  have hf := h.q.find id
+  cases h1 : l1.map.find id with
+  | none =>
+    have h2 : l2.map.find id = none := by rw [← hf]; exact h1
+    simp only [Level.amend, h1, h2]
+    exact ⟨trivial, h⟩
+  | some o =>
+    have h2 : l2.map.find id = some o := by rw [← hf]; exact h1
+    have hDid : D id = false := by
+      cases hv : D id with
+      | false => rfl
+      | true => have := h.q.dead id hv; rw [h1] at this; cases this
+    have hoid : o.id = id := (find_some h1).2
+    simp only [Level.amend, h1, h2]
+    refine ⟨trivial, ⟨h.price, by simp [h.vis], by simp [h.hid], ?_, ?_⟩⟩
+    · exact h.cnt
+    · have hp := relq_push (relq_erase h.q id h.q.tick) (o.withReduced n) (by rw [withReduced_id, hoid]; exact hDid)
+      rw [withReduced_id, hoid] at hp
+      exact hp
+
+theorem update_rel {D : Id → Bool} {l1 l2 : Level} (h : LRel D l1 l2) (u : Update) :
+    (l1.update u).2 = (l2.update u).2 ∧ LRel D (l1.update u).1 (l2.update u).1 := by
+  cases u with
+  | price id p =>
+    simp only [Level.update, h.price]
+    split
+    · exact remove_rel h id
+    · exact ⟨rfl, h⟩
+  | quantity id n => exact amend_rel h id n
+  | priceQty id p n =>
+    simp only [Level.update, h.price]
+    split
+    · exact remove_rel h id
+    · exact amend_rel h id n
+  | cancel id => exact remove_rel h id
+  | replace id p n sd =>
+    simp only [Level.update, h.price]
+    split
+    · exact remove_rel h id
+    · exact amend_rel h id n
+
+/-- one operation of a continuation -/
+inductive COp where
+  | add (o : Order)
+  | upd (u : Update)
+  | mtch (q : Nat) (taker : Id)
+
+/-- what its caller sees -/
+inductive COut where
+  | added (o : Order)
+  | upd (r : UpdOut)
+  | matched (r : MatchResult)
+
+def stepC (l : Level) (g : Nat) : COp → COut × Level × Nat
+  | .add o => (.added o, l.addOrder o, g)
+  | .upd u => (.upd (l.update u).2, (l.update u).1, g)
+  | .mtch q t => (.matched (l.matchOrder q t g).2.1, (l.matchOrder q t g).1, (l.matchOrder q t g).2.2)
+
+def runC (l : Level) (g : Nat) : List COp → List COut × Level × Nat
+  | [] => ([], l, g)
+  | op :: rest =>
+    let r := stepC l g op
+    let rr := runC r.2.1 r.2.2 rest
+    (r.1 :: rr.1, rr.2.1, rr.2.2)
+
+/-- the continuation never adds an id of `D` -/
+def Avoids (D : Id → Bool) (ops : List COp) : Prop := ∀ o, COp.add o ∈ ops → D o.id = false
+
+theorem step_rel {D : Id → Bool} {l1 l2 : Level} (h : LRel D l1 l2) (g : Nat) (op : COp)
+    (hop : ∀ o, op = .add o → D o.id = false) :
+    (stepC l1 g op).1 = (stepC l2 g op).1 ∧ (stepC l1 g op).2.2 = (stepC l2 g op).2.2 ∧
+      LRel D (stepC l1 g op).2.1 (stepC l2 g op).2.1 := by
+  cases op with
+  | add o => exact ⟨rfl, rfl, add_rel h o (hop o rfl)⟩
+  | upd u =>
+    obtain ⟨e, hr⟩ := update_rel h u
+    exact ⟨by simp only [stepC]; rw [e], rfl, hr⟩
+  | mtch q t =>
+    obtain ⟨e, hr⟩ := match_rel h q t g
+    have e1 : (l1.matchOrder q t g).2.1 = (l2.matchOrder q t g).2.1 := congrArg Prod.fst e
+    have e2 : (l1.matchOrder q t g).2.2 = (l2.matchOrder q t g).2.2 := congrArg Prod.snd e
+    exact ⟨by simp only [stepC]; rw [e1], e2, hr⟩
+
+/-- **every continuation**: related levels answer every sequence of adds, cancels, amends, price moves,
+    replaces and matches identically, as long as no id of `D` is added -/
+theorem run_rel (D : Id → Bool) : ∀ (ops : List COp) {l1 l2 : Level} (_ : LRel D l1 l2) (g : Nat), Avoids D ops →
+    (runC l1 g ops).1 = (runC l2 g ops).1
+  | [], _, _, _, _, _ => rfl
+  | op :: rest, l1, l2, h, g, hav => by
+    obtain ⟨e1, e2, hr⟩ := step_rel h g op (fun o e => hav o (by simp [e]))
+    have ih := run_rel D rest hr (stepC l1 g op).2.2 (fun o ho => hav o (by simp [ho]))
+    simp only [runC]
+    rw [e1, ← e2, ih]
+
+/-- the ids whose tickets are still queued although the order is gone (cancelled, or amended or moved away) -/
+def staleIds (l : Level) (id : Id) : Bool := decide (id ∈ l.tickets) && (l.map.find id).isNone
+
+theorem filter_live (m : OMap) : ∀ (ts : List Id), ts.Nodup →
+    ts.filter (fun id => (m.find id).isSome) = ids (liveOrder m ts) := by
+  intro ts
+  induction ts generalizing m with
+  | nil => intro _; rfl
+  | cons t r ih =>
+    intro hn
+    have hnr : r.Nodup := (List.nodup_cons.1 hn).2
+    have htr : t ∉ r := (List.nodup_cons.1 hn).1
+    cases hf : m.find t with
+    | none =>
+      rw [List.filter_cons_of_neg (by simp [hf])]
+      simp only [liveOrder, hf]
+      exact ih m hnr
+    | some o =>
+      rw [List.filter_cons_of_pos (by simp [hf])]
+      simp only [liveOrder, hf, ids, List.map_cons]
+      rw [(find_some hf).2]
+      congr 1
+      rw [← ids, ← ih (m.erase t) hnr]
+      apply List.filter_congr
+      intro x hx
+      have hne : x ≠ t := fun e => htr (e ▸ hx)
+      rw [find_erase_ne hne]
+
+/-- **C11 for the levels where it holds, every continuation**: if the original's hand-out order is its
+    timestamp-sorted listing at the moment of the snapshot and its ticket queue holds no duplicate
+    tickets, the restored level answers every continuation — adds, cancels, quantity amends, price
+    moves, replaces, matches, in any order and number — exactly as the original does, provided the
+    continuation does not re-add an id whose stale ticket the original still queues (C04/F2) -/
+theorem C11_continuations {l : Level} (h : l.Inv) (ht : l.tickets.Nodup) (hl : live l = l.listing)
+    (ops : List COp) (g : Nat) (hav : Avoids (staleIds l) ops) :
+    (runC (Level.fromSnapshot l.snapshot) g ops).1 = (runC l g ops).1 := by
+  have hg := h.snapshot_good
+  obtain ⟨e0, e1, e2, e3, e4, e5⟩ := Level.fromSnapshot_fields l.snapshot hg
+  have hrt := C10.C10_snapshot_roundtrip h
+  have hrel : LRel (staleIds l) (Level.fromSnapshot l.snapshot) l := by
+    refine ⟨hrt.1, hrt.2.2.2.1, hrt.2.2.2.2.1, hrt.2.2.2.2.2.1, ⟨hrt.2.2.1, ?_, ?_⟩⟩
+    · intro id hid
+      simp only [staleIds, Bool.and_eq_true, Option.isNone_iff_eq_none] at hid
+      rw [hrt.2.2.1]; exact hid.2
+    · rw [e5, fromVec_tickets]
+      have hlist : ids l.snapshot.orders = ids (liveOrder l.map l.tickets) := by
+        show ids l.listing = _; rw [← hl]; rfl
+      rw [hlist, ← filter_live l.map l.tickets ht]
+      rw [List.filter_filter]
+      apply List.filter_congr
+      intro x hx
+      simp only [staleIds, hx, decide_true, Bool.true_and]
+      cases l.map.find x <;> simp
+  exact run_rel (staleIds l) ops hrel g hav
+
+/-! non-vacuity: the relation is inhabited by a level with a stale ticket (A cancelled) and its restore,
+    and a continuation with an add, an amend and a match meets the hypotheses -/
+example :
+    let l := ((Level.new 100).addOrder B |>.addOrder A |>.update (.cancel B.id)).1
+    l.tickets.Nodup ∧ live l = l.listing ∧
+      Avoids (staleIds l) [.add ⟨⟨false, 7⟩, 100, 3, .sell, 9, .gtc, .standard⟩, .upd (.quantity A.id 4), .mtch 5 taker] := by
+  refine ⟨by decide, by decide, ?_⟩
+  intro o ho
+  simp at ho
+  subst ho
   decide
 
 end PLV.C11
